@@ -17,8 +17,28 @@ import IoosQc.Theorems.C01
 import IoosQc.Theorems.C05
 import IoosQc.Theorems.C05Refine
 import IoosQc.Theorems.C06
+set_option linter.unusedSimpArgs false
+set_option linter.unusedVariables false
 
 namespace IoosQc
+
+/-! ## list congruences (not in core under these names) -/
+
+theorem flatMap_congr' {α β : Type} (l : List α) (f g : α → List β) (h : ∀ a ∈ l, f a = g a) :
+    l.flatMap f = l.flatMap g := by
+  induction l with
+  | nil => rfl
+  | cons a l ih =>
+    simp only [List.flatMap_cons]
+    rw [h a (by simp), ih (fun b hb => h b (by simp [hb]))]
+
+theorem filterMap_congr' {α β : Type} (l : List α) (f g : α → Option β) (h : ∀ a ∈ l, f a = g a) :
+    l.filterMap f = l.filterMap g := by
+  induction l with
+  | nil => rfl
+  | cons a l ih =>
+    simp only [List.filterMap_cons]
+    rw [h a (by simp), ih (fun b hb => h b (by simp [hb]))]
 
 /-! ## contexts: grouping -/
 
@@ -29,19 +49,28 @@ def filterEntries (p : SysEntry → Bool) (c : SysCtx) : SysCtx :=
 @[simp] theorem filterEntries_window (p : SysEntry → Bool) (c : SysCtx) :
     (filterEntries p c).window = c.window := rfl
 
+theorem any_window_filter (p : SysEntry → Bool) (acc : List SysCtx) (c : SysCtx) :
+    (acc.map (filterEntries p)).any (fun a => a.window = (filterEntries p c).window)
+      = acc.any (fun a => a.window = c.window) := by
+  induction acc with
+  | nil => rfl
+  | cons a as ih =>
+    simp only [filterEntries_window] at ih
+    simp only [List.map_cons, List.any_cons, filterEntries_window, ih]
+    congr
+
 theorem groupStep_filter (p : SysEntry → Bool) (acc : List SysCtx) (c : SysCtx) :
     groupStep (acc.map (filterEntries p)) (filterEntries p c) = (groupStep acc c).map (filterEntries p) := by
   unfold groupStep
-  have hany : (acc.map (filterEntries p)).any (fun a => decide (a.window = (filterEntries p c).window))
-      = acc.any (fun a => decide (a.window = c.window)) := by
-    simp [List.any_map, Function.comp_def]
-  rw [hany]
+  rw [any_window_filter]
   split
   · simp only [List.map_map]
     apply List.map_congr_left
     intro a _
     simp only [Function.comp, filterEntries_window]
-    split <;> simp [filterEntries, List.filter_append]
+    split
+    next h => simp [h, filterEntries, List.filter_append]
+    next h => simp [h, filterEntries]
   · simp [List.map_append]
 
 theorem foldl_groupStep_filter (p : SysEntry → Bool) (cs acc : List SysCtx) :
@@ -139,7 +168,7 @@ theorem C05_sys_frontends_pandas (periodOf : Period → Int → Int) (tab : Tabl
     runStream periodOf (fun w ts => pandasMask w (labels.zip ts)) tab cs
       = runStream periodOf specMask tab cs := by
   unfold runStream
-  apply List.flatMap_congr
+  apply flatMap_congr'
   intro c _
   unfold runCtx
   have hm : pandasMask c.window (labels.zip tab.t) = specMask c.window tab.t := by
@@ -163,7 +192,7 @@ theorem runCtx_eq (periodOf : Period → Int → Int) (front : Window → List I
         (entryFlags periodOf tab (front c.window tab.t) e).map fun fl =>
           ⟨e.stream, e.key, front c.window tab.t, fl⟩ := by
   unfold runCtx entryFlags
-  apply List.filterMap_congr
+  apply filterMap_congr'
   intro e _
   cases tab.cols.lookup e.stream <;> rfl
 
@@ -229,5 +258,272 @@ theorem C05_sys_rows_window (tab : Table) (hwf : tab.wf) (w : Window) (s : Strin
   · cases h : tab.lon with
     | none => rfl
     | some a => simp [selectRows_spec_eq_windowRows w a tab.t (hlon a h)]
+
+/-! ## collection -/
+
+theorem selectRows_length {α : Type} (mask : List Bool) (xs : List α) (h : xs.length = mask.length) :
+    (selectRows mask xs).length = mask.count true := by
+  unfold selectRows
+  induction mask generalizing xs with
+  | nil => simp
+  | cons m ms ih =>
+    cases xs with
+    | nil => simp at h
+    | cons x xs =>
+      have h' : xs.length = ms.length := by simpa using h
+      have := ih xs h'
+      cases m <;> simp_all [List.zip_cons_cons, List.filterMap_cons]
+
+/-- A call bound to rows that all have `k` entries has `k` as its size. -/
+theorem bind_size (sp : TestSpec) (r : Rows) (k : Nat) (call : TestCall)
+    (hinp : r.inp.length = k)
+    (hlat : ∀ a, r.lat = some a → a.length = k) (hlon : ∀ a, r.lon = some a → a.length = k)
+    (hb : sp.bind r = some call) : call.size = k := by
+  cases sp <;> simp only [TestSpec.bind] at hb
+  case gross f su => cases hb; simpa [TestCall.size] using hinp
+  case valid lo hi si ei => cases hb; simpa [TestCall.size] using hinp
+  case location b rm h =>
+    cases hlo : r.lon <;> cases hla : r.lat <;> simp [hlo, hla] at hb
+    cases hb; simpa [TestCall.size] using hlon _ hlo
+  case climatology ms =>
+    cases hz : r.z <;> simp [hz] at hb
+    cases hb; simpa [TestCall.size] using hinp
+  case spike m su f => cases hb; simpa [TestCall.size] using hinp
+  case roc thr => cases hb; simpa [TestCall.size] using hinp
+  case flatLine su f tol => cases hb; simpa [TestCall.size] using hinp
+  case attenuated ct su f pe mo mp => cases hb; simpa [TestCall.size] using hinp
+  case density su f =>
+    cases hz : r.z <;> simp [hz] at hb
+    cases hb; simpa [TestCall.size] using hinp
+  case pressure => cases hb; simpa [TestCall.size] using hinp
+  case speed su f h =>
+    cases hlo : r.lon <;> cases hla : r.lat <;> simp [hlo, hla] at hb
+    cases hb; simpa [TestCall.size] using hlon _ hlo
+  case raiser => cases hb
+
+/-- Whatever a call yields has one flag per row of its window. -/
+theorem runEntry_length (periodOf : Period → Int → Int) (tab : Table) (hwf : tab.wf) (mask : List Bool)
+    (hm : mask.length = tab.t.length) (e : SysEntry) (col : List V)
+    (hl : tab.cols.lookup e.stream = some col) (fl : List Flag)
+    (h : runEntry periodOf tab mask col e = some fl) : fl.length = mask.count true := by
+  obtain ⟨_, hlat, hlon, hcols⟩ := hwf
+  unfold runEntry at h
+  cases hb : e.spec.bind (tab.rows col mask) with
+  | none => simp [hb] at h
+  | some call =>
+    simp only [hb] at h
+    cases hr : call.run periodOf with
+    | error er => simp [hr] at h
+    | ok fl' =>
+      simp only [hr, Option.some.injEq] at h
+      subst h
+      rw [C01_length periodOf call fl' hr]
+      refine bind_size e.spec (tab.rows col mask) _ call ?_ ?_ ?_ hb
+      · exact selectRows_length mask col (by rw [hcols _ _ hl, hm])
+      · intro a ha
+        simp only [Table.rows] at ha
+        cases hla : tab.lat with
+        | none => simp [hla] at ha
+        | some a' =>
+          simp only [hla, Option.map_some, Option.some.injEq] at ha
+          subst ha
+          exact selectRows_length mask a' (by rw [hlat _ hla, hm])
+      · intro a ha
+        simp only [Table.rows] at ha
+        cases hlo : tab.lon with
+        | none => simp [hlo] at ha
+        | some a' =>
+          simp only [hlo, Option.map_some, Option.some.injEq] at ha
+          subst ha
+          exact selectRows_length mask a' (by rw [hlon _ hlo, hm])
+
+/-- Every piece the collector meets is well formed: a mask over all input rows and one flag per
+    selected row. -/
+theorem C06_sys_pieces_wf (periodOf : Period → Int → Int) (tab : Table) (hwf : tab.wf) (cs : List SysCtx)
+    (s k : String) :
+    ∀ p ∈ sysPieces (runStream periodOf specMask tab cs) s k, p.wf tab.t.length = true := by
+  intro p hp
+  unfold sysPieces at hp
+  obtain ⟨y, hy, hyp⟩ := List.mem_filterMap.1 hp
+  obtain ⟨c, _, e, _, col, hl, rfl⟩ := C05_sys_yield_sound periodOf tab cs y hy
+  split at hyp
+  · simp only [Yield.piece?] at hyp
+    cases hf : runEntry periodOf tab (specMask c.window tab.t) col e with
+    | none => simp [hf] at hyp
+    | some fl =>
+      simp only [hf, Option.map_some, Option.some.injEq] at hyp
+      subst hyp
+      have hlen := runEntry_length periodOf tab hwf (specMask c.window tab.t) (by simp [specMask]) e col hl fl hf
+      simp [Piece.wf, specMask, hlen] 
+  · simp at hyp
+
+/-- The collected list-form column of a complete run: at every input row the flag of the last
+    context that covers the row and produced a result for this (stream, module.test); masked where
+    there is none.  No hypothesis on the configuration. -/
+theorem C06_sys_collect (periodOf : Period → Int → Int) (tab : Table) (hwf : tab.wf) (cs : List SysCtx)
+    (s k : String) (i : Nat) (hi : i < tab.t.length) :
+    (collectColumn tab.t.length (sysPieces (runStream periodOf specMask tab cs) s k)).getD i none
+      = coveredValue (sysPieces (runStream periodOf specMask tab cs) s k) i :=
+  C06_collect_spec _ _ (C06_sys_pieces_wf periodOf tab hwf cs s k) i hi
+
+/-- … and the dict form: the same flag on covered rows, UNKNOWN (2) elsewhere. -/
+theorem C06_sys_dict (periodOf : Period → Int → Int) (tab : Table) (hwf : tab.wf) (cs : List SysCtx)
+    (s k : String) (i : Nat) (hi : i < tab.t.length) :
+    (collectDict tab.t.length (sysPieces (runStream periodOf specMask tab cs) s k)).getD i 0
+      = (coveredValue (sysPieces (runStream periodOf specMask tab cs) s k) i).getD 2 :=
+  C06_dict_spec _ _ (C06_sys_pieces_wf periodOf tab hwf cs s k) i hi
+
+/-! ## tests that cannot run -/
+
+/-- The piece an entry contributes to the column of (s, k) in a context with row mask `mask`. -/
+def entryPiece (periodOf : Period → Int → Int) (tab : Table) (mask : List Bool) (s k : String)
+    (e : SysEntry) : Option Piece :=
+  if e.stream = s ∧ e.key = k then
+    (match entryFlags periodOf tab mask e with
+     | some (some fl) => some ⟨mask, fl.map fun f => (f.code : Int)⟩
+     | _ => none)
+  else none
+
+theorem sysPieces_runCtx (periodOf : Period → Int → Int) (front : Window → List Int → List Bool)
+    (tab : Table) (c : SysCtx) (s k : String) :
+    sysPieces (runCtx periodOf front tab c) s k
+      = c.entries.filterMap (entryPiece periodOf tab (front c.window tab.t) s k) := by
+  unfold sysPieces
+  rw [runCtx_eq, List.filterMap_filterMap]
+  apply filterMap_congr'
+  intro e _
+  unfold entryPiece
+  cases hf : entryFlags periodOf tab (front c.window tab.t) e with
+  | none => simp
+  | some o =>
+    cases o with
+    | none => simp [Yield.piece?]
+    | some fl => simp [Yield.piece?]
+
+theorem sysPieces_runStream (periodOf : Period → Int → Int) (front : Window → List Int → List Bool)
+    (tab : Table) (cs : List SysCtx) (s k : String) :
+    sysPieces (runStream periodOf front tab cs) s k
+      = (groupCtxs cs).flatMap fun c =>
+          c.entries.filterMap (entryPiece periodOf tab (front c.window tab.t) s k) := by
+  unfold runStream
+  unfold sysPieces
+  rw [List.filterMap_flatMap]
+  apply flatMap_congr'
+  intro c _
+  exact sysPieces_runCtx periodOf front tab c s k
+
+/-- **C18 at system level.**  Let `p` keep some entries and drop others, where every dropped
+    entry contributes nothing to the column of (s, k) — because it cannot run (unknown to the
+    table, a required input not supplied, parameters rejected, a callee that raises) or because
+    it is another test.  Then the pieces collected for (s, k), hence the collected column in
+    both forms, are the same with and without the dropped entries — wherever they stand, in any
+    number, in any contexts. -/
+theorem C18_sys_isolation (periodOf : Period → Int → Int) (front : Window → List Int → List Bool)
+    (tab : Table) (cs : List SysCtx) (s k : String) (p : SysEntry → Bool)
+    (hdead : ∀ e, p e = false → ∀ mask, entryPiece periodOf tab mask s k e = none) :
+    sysPieces (runStream periodOf front tab (cs.map (filterEntries p))) s k
+      = sysPieces (runStream periodOf front tab cs) s k := by
+  rw [sysPieces_runStream, sysPieces_runStream, groupCtxs_filter, List.flatMap_map]
+  apply flatMap_congr'
+  intro c _
+  simp only [filterEntries]
+  generalize c.entries = es
+  induction es with
+  | nil => rfl
+  | cons e es ih =>
+    cases hp : p e with
+    | true => simp [List.filter_cons, hp, List.filterMap_cons, ih]
+    | false => simp [List.filter_cons, hp, List.filterMap_cons, ih, hdead e hp]
+
+/-- A test's collected column is what it yields when it is configured alone. -/
+theorem C18_sys_alone (periodOf : Period → Int → Int) (front : Window → List Int → List Bool)
+    (tab : Table) (cs : List SysCtx) (s k : String) :
+    sysPieces (runStream periodOf front tab
+        (cs.map (filterEntries fun e => decide (e.stream = s ∧ e.key = k)))) s k
+      = sysPieces (runStream periodOf front tab cs) s k := by
+  apply C18_sys_isolation
+  intro e he mask
+  have : ¬ (e.stream = s ∧ e.key = k) := by simpa using he
+  simp [entryPiece, this]
+
+/-- An entry that cannot run (whatever the rows) contributes to no column. -/
+theorem C18_sys_dead_entry (periodOf : Period → Int → Int) (tab : Table) (e : SysEntry)
+    (h : tab.cols.lookup e.stream = none ∨ ∀ r, e.spec.bind r = none ∨
+          ∃ call, e.spec.bind r = some call ∧ ∃ er, call.run periodOf = .error er) :
+    ∀ s k mask, entryPiece periodOf tab mask s k e = none := by
+  intro s k mask
+  unfold entryPiece
+  split
+  · rcases h with h | h
+    · simp [entryFlags, h]
+    · cases hl : tab.cols.lookup e.stream with
+      | none => simp [entryFlags, hl]
+      | some col =>
+        simp only [entryFlags, hl, Option.map_some]
+        rcases h (tab.rows col mask) with hb | ⟨call, hb, er, hr⟩
+        · simp [runEntry, hb]
+        · simp [runEntry, hb, hr]
+  · rfl
+
+/-- Corollary in the words of the property: drop every entry that cannot run — every collected
+    column is unchanged. -/
+theorem C18_sys_drop_failing (periodOf : Period → Int → Int) (front : Window → List Int → List Bool)
+    (tab : Table) (cs : List SysCtx) (p : SysEntry → Bool)
+    (hp : ∀ e, p e = false → (tab.cols.lookup e.stream = none ∨ ∀ r, e.spec.bind r = none ∨
+          ∃ call, e.spec.bind r = some call ∧ ∃ er, call.run periodOf = .error er))
+    (s k : String) (n : Nat) :
+    sysCollectList n (runStream periodOf front tab (cs.map (filterEntries p))) s k
+        = sysCollectList n (runStream periodOf front tab cs) s k ∧
+    sysCollectDict n (runStream periodOf front tab (cs.map (filterEntries p))) s k
+        = sysCollectDict n (runStream periodOf front tab cs) s k := by
+  have h := C18_sys_isolation periodOf front tab cs s k p
+    (fun e he mask => C18_sys_dead_entry periodOf tab e (hp e he) s k mask)
+  simp [sysCollectList, sysCollectDict, h]
+
+/-! ## a row outside the window cannot matter -/
+
+theorem selectRows_set_outside {α : Type} (mask : List Bool) (xs : List α) (j : Nat) (v : α)
+    (hj : mask.getD j false = false) : selectRows mask (xs.set j v) = selectRows mask xs := by
+  unfold selectRows
+  induction mask generalizing xs j with
+  | nil => simp
+  | cons m ms ih =>
+    cases xs with
+    | nil => simp
+    | cons x xs =>
+      cases j with
+      | zero =>
+        have : m = false := by simpa using hj
+        subst this
+        simp [List.zip_cons_cons, List.filterMap_cons]
+      | succ j =>
+        have hj' : ms.getD j false = false := by simpa using hj
+        simp only [List.set_cons_succ, List.zip_cons_cons, List.filterMap_cons]
+        rw [ih xs j hj']
+
+/-- Replacing the value of a data column at a row whose time is outside the context's window
+    leaves that context's call — hence its flags — unchanged. -/
+theorem C05_sys_outside_row (periodOf : Period → Int → Int) (tab : Table) (w : Window) (col : List V)
+    (e : SysEntry) (j : Nat) (v : V) (hout : (specMask w tab.t).getD j false = false) :
+    runEntry periodOf tab (specMask w tab.t) (col.set j v) e
+      = runEntry periodOf tab (specMask w tab.t) col e := by
+  unfold runEntry Table.rows
+  rw [selectRows_set_outside _ _ _ _ hout]
+
+/-! ## non-vacuity: a concrete run -/
+
+private def exTab : Table :=
+  { t := [0, 60, 120, 180], z := none, lat := none, lon := none,
+    cols := [("v1", [some 1, some 50, some 2, none])] }
+private def exCfg : List SysCtx :=
+  [ { window := ⟨none, some 120⟩,
+      entries := [⟨"v1", "qartod.gross_range_test", .gross ⟨true, [0, 10]⟩ none⟩,
+                  ⟨"v1", "qartod.density_inversion_test", .density none none⟩,      -- no depth: cannot run
+                  ⟨"ghost", "qartod.spike_test", .spike "average" none none⟩] },   -- stream absent
+    { window := ⟨some 120, none⟩,
+      entries := [⟨"v1", "qartod.gross_range_test", .gross ⟨true, [0, 10]⟩ none⟩] } ]
+
+example : systemRun (fun _ _ => 0) exTab exCfg
+    = [(("v1", "qartod.gross_range_test"), [some 1, some 4, some 1, some 9])] := by decide +kernel
 
 end IoosQc
